@@ -75,14 +75,13 @@ TAGS = {
 }
 CORR = (1, 2, 3, 5, 6)
 # oracle tag -> finding id that may excuse it (only when listed open) ; guard tag that must be present
-ORACLE_FINDING = {11: ('C09-COV-NESTED-SAME-SYMBOL', 204), 12: ('C09-COV-NESTED-SAME-SYMBOL', 204),
-                  13: ('C09-COV-ADD-NOT-NEUTRAL', 201), 23: ('C09-IIV-EXP-ADD-NOT-NEUTRAL', 202),
+ORACLE_FINDING = {13: ('C09-COV-ADD-NOT-NEUTRAL', 201), 23: ('C09-IIV-EXP-ADD-NOT-NEUTRAL', 202),
                   24: ('C09-IIV-LOGIT-NOT-NEUTRAL', 202), 25: ('C09-IIV-RELOG-NOT-NEUTRAL', 202),
                   27: ('C09-IIV-RELOG-REMOVE', 202), 34: ('C09-POWER-ON-RUV-EXTRA-FACTOR', None), 26: ('C09-IIV-LOGIT-REMOVE-QUOTIENT', None), 41: ('C09-TRANSIT-REDUCE-TO-ONE', None),
                   45: ('C09-TRANSIT-REDUCE-TO-ONE', None),
                   90: ('C09-IIV-RELOG-PHI-NAME', None)}
 # several findings may share an oracle tag: the first whose pattern matches the input excuses it
-EXTRA_FINDINGS = {90: ['C09-COV-PIECEWISE-PARAM', 'C09-REMOVE-IIV-SINGLE-ARG']}
+EXTRA_FINDINGS = {}
 ORACLE = [t for t in TAGS if t >= 11]
 
 PLACEHOLDERS = {'cov': 1, 'median': 2, 'mean': 3, 'std': 4, 'theta': 5, 'theta1': 6, 'theta2': 7, 'NaN': 8}
@@ -1189,7 +1188,16 @@ def finding_probes(ctx, prelude):
             ctx.notes.append(f"finding_not_reproduced {f['id']} (tags {sorted(tags)})")
 
 
+def dedupe_findings(ctx):
+    """known_findings.d (staging) overrides known_findings.json entry by entry (same id)."""
+    byid = {}
+    for f in ctx.findings:
+        byid[f['id']] = f
+    ctx.findings = list(byid.values())
+
+
 def run(ctx):
+    dedupe_findings(ctx)
     ctx.build_gate(['C09'])
     ctx.trusted += [
         'harness/props/c09_templates.py (fail-closed ast translator pharmpy source -> Coq terms) and coqterm.py / sym2coq.py '
@@ -1261,6 +1269,7 @@ def run(ctx):
 
 
 def replay(ctx, rep):
+    dedupe_findings(ctx)
     spec = rep.get('spec', rep)
     prelude = prepare_gen(ctx)
     if prelude is None:
